@@ -196,7 +196,8 @@ def sig_of(case, clause, **extra):
     kw = case.get("kwargs", {})
     s = dict(clause=clause, search=case["search"])
     if case["search"] == "CBO" and clause in CLAUSE.values():
-        s.update(acq=kw.get("acq_func", "UCBd"))
+        acq = kw.get("acq_func", "UCBd")
+        s.update(acq=acq if acq.startswith("MES") else "non-MES")   # coarse on purpose: one report per failure class
     s.update(extra)
     return s
 
